@@ -103,7 +103,9 @@ class GitSched(graphs.SymSched):
         self.asked = []
 
     def idx(self, h):
-        m = re.fullmatch(r"c(\d)0{38}", h)
+        """Commit index of a hash; the hash of an annotated tag object (a<i>00..) and the tag name (tag<i>) are peeled to
+        the commit they point at, as git does for merge-base / rev-list."""
+        m = re.fullmatch(r"[ca](\d)0{38}", h) or re.fullmatch(r"tag(\d)", h)
         if m and self.dag is not None and int(m.group(1)) < self.dag.M:
             return int(m.group(1))
         return None
@@ -117,11 +119,22 @@ class GitSched(graphs.SymSched):
         if self.mode == "no-commits":
             return "", 128
         if argv[0] == "rev-parse":
-            sym = argv[1]
+            args_ = [a for a in argv[1:] if not a.startswith("-")]          # (--verify, -q ...)
+            if len(args_) != 1:
+                return self.ask_real_git(kernel, argv)
+            sym = args_[0]
+            peel = False
+            for suffix in ("^{commit}", "^{}", "^0", "~0"):
+                if sym.endswith(suffix):
+                    sym, peel = sym[:-len(suffix)], True
             if sym == "HEAD":
                 return H(self.head) + "\n", 0
+            mt = re.fullmatch(r"tag(\d)", sym)
+            if mt and self.dag is not None and int(mt.group(1)) < self.dag.M:
+                # an annotated tag: its own object id unless peeled
+                return (H(int(mt.group(1))) if peel else "a%s" % mt.group(1) + "0" * 38) + "\n", 0
             if self.idx(sym) is not None:
-                return sym + "\n", 0
+                return (H(self.idx(sym)) if peel else sym) + "\n", 0
             return "", 128
         if argv[:2] == ["diff-index", "--quiet"]:
             return "", (1 if self.dirty else 0)
@@ -169,7 +182,7 @@ class GitSched(graphs.SymSched):
         return out, p.returncode
 
 
-def make(M, K, flags=FLAGS, modes=GM, known_commits_only=False):
+def make(M, K, flags=FLAGS, modes=GM, known_commits_only=False, tags=False):
     def fn(g):
         import conductor.cli.run as cli_run
         import conductor.cli.where as cli_where
@@ -201,6 +214,8 @@ def make(M, K, flags=FLAGS, modes=GM, known_commits_only=False):
         if flag in ("at-least", "both-commit-flags", "again+commit"):
             pool = [H(i) for i in range(dag.M)] if dag is not None else [H(0)]
             pool.append("nosuchbranch")
+            if dag is not None and tags:
+                pool += ["tag%d" % i for i in range(dag.M)]          # annotated tags
             at_least = pool[g.choose("atleast", len(pool))]
         proj = hrun.Project(config=("disable_git = true\n" if mode == "disabled" else ""))
         try:
@@ -326,6 +341,8 @@ def make(M, K, flags=FLAGS, modes=GM, known_commits_only=False):
                 g.goal("two ancestor versions compared by distance")
             if uses_commits and flag in ("at-least", "this-commit") and not e_ran:
                 g.goal("--at-least/--this-commit satisfied by a cached version")
+            if uses_commits and flag == "at-least" and at_least.startswith("tag") and rows and rows[0]["commit"] == H(sched.idx(at_least)):
+                g.goal("--at-least names an annotated tag on the cached version's commit")
             if uses_commits and flag == "at-least" and rows and rows[0]["commit"] and sched.idx(rows[0]["commit"]) is not None:
                 ci_, C_ = sched.idx(rows[0]["commit"]), sched.idx(at_least)
                 if C_ is not None and ci_ != C_ and not bool(g.lift(dag.reach(C_, ci_))) and not bool(g.lift(dag.reach(ci_, C_))):
@@ -375,6 +392,24 @@ def lemma_git_conformance(M):
                 dag.g, dag.M, dag._reach = cg, M, {}
                 dag.p = {k: z3.BoolVal(v) for k, v in par.items()}
                 real = Git(pathlib.Path(d))
+                # annotated tags: the emulator's three assumptions about them
+                for a in range(M):
+                    git("tag", "-a", "tag%d" % a, "-m", "t", hashes[a])
+                    tobj = git("rev-parse", "tag%d" % a).stdout.strip()
+                    peeled = git("rev-parse", "tag%d^{commit}" % a).stdout.strip()
+                    out["obligations"] += 2
+                    if tobj != hashes[a] and peeled == hashes[a] and git("cat-file", "-t", tobj).stdout.strip() == "tag":
+                        out["discharged"] += 1
+                    else:
+                        out["inconclusive"].append("git rev-parse of an annotated tag: %s / peeled %s / commit %s" % (tobj, peeled, hashes[a]))
+                    # merge-base and rev-list accept the tag object's id and peel it
+                    ok_ = all(real.is_ancestor(tobj, hashes[b]) == real.is_ancestor(hashes[a], hashes[b])
+                              and real.is_ancestor(hashes[b], tobj) == real.is_ancestor(hashes[b], hashes[a])
+                              and real.get_distance(tobj, hashes[b]) == real.get_distance(hashes[a], hashes[b]) for b in range(M))
+                    if ok_:
+                        out["discharged"] += 1
+                    else:
+                        out["inconclusive"].append("git does not peel the tag object %s like the emulator" % tobj)
                 for a in range(M):
                     for b in range(M):
                         out["obligations"] += 2
@@ -432,6 +467,10 @@ def spaces(tier):
                 "(distinct timestamps; commit NULL | any commit | unknown hash), git modes {no repo, disabled, no commits, DAG}, "
                 "flags {none, --again, --this-commit, --at-least C, both, again+commit}", depth=6, goals=goals,
                 outside=["M>4", "K>3", "grafts/shallow clones"])]
+    sp.append(Space("m3-k1-atleast-annotated-tags", make(3, 1, flags=("at-least",), modes=("dag",), tags=True, known_commits_only=True),
+                    "M<=3 commits, one recorded version at a known commit, --at-least given as a commit hash or as an ANNOTATED TAG on any "
+                    "commit (rev-parse yields the tag object's id unless peeled; merge-base and rev-list peel)", depth=12,
+                    goals=["--at-least names an annotated tag on the cached version's commit"]))
     sp.append(Space("m4-k1-atleast", make(4, 1, flags=("at-least",), modes=("dag",)),
                     "exactly 4 commits (symbolic parents: forks and merges, so that a version's commit and C can be unrelated "
                     "ancestors of HEAD), HEAD anywhere, <=1 recorded version, --at-least C for every C", depth=7,
